@@ -7,6 +7,7 @@
 import CocaVerif.Drv.Call
 import CocaVerif.Drv.Bs
 import CocaVerif.Drv.Stats
+import CocaVerif.Drv.Tbs
 open Lean
 
 partial def loop {σ : Type} (h : IO.FS.Stream) (out : IO.FS.Stream) (step : σ → Json → σ × Json) (st : σ) : IO Unit := do
@@ -31,4 +32,5 @@ def main (args : List String) : IO UInt32 := do
   | ["call"] => loop stdin stdout CocaVerif.Drv.Call.step {}; return 0
   | ["bs"] => loop stdin stdout CocaVerif.Drv.Bs.step (); return 0
   | ["stats"] => loop stdin stdout CocaVerif.Drv.Stats.step (); return 0
+  | ["tbs"] => loop stdin stdout CocaVerif.Drv.Tbs.step (); return 0
   | _ => IO.eprintln "usage: driver <family>"; return 2
